@@ -7,7 +7,10 @@ MCNodes == {"root", "container", "container2", "presence", "list", "list2", "lis
             "leaf.must", "leaf.state", "leaflist", "keyleaf", "keyleaf2", "choice", "entryleaf", "entry2leaf", "entry3leaf", "augmented", "presenceleaf"} \cup TypeLeaves
 MCListNodes == {"entry", "entry2", "entry3", "keyleaf", "keyleaf2", "choice", "entryleaf", "entry2leaf", "entry3leaf", "leaf.enum"}
 MCMultiKey == {"entry2", "entry3", "keyleaf2", "entry2leaf", "entry3leaf"}
-MCPathShapes == {"exact", "unknown_last", "unknown_mid", "empty_name", "below_leaf", "module_prefixed", "bad_prefix", "origin", "deep", "keys_on_nonlist", "nil_elem"}
+MCPathShapes == {"exact", "unknown_last", "unknown_mid", "empty_name", "below_leaf", "module_prefixed", "bad_prefix", "origin", "deep", "keys_on_nonlist", "nil_elem",
+                 "absent", "twice", "plus_keyless_before", "plus_keyless_after"}
+MCCompound == {"twice", "plus_keyless_before", "plus_keyless_after"}
+MCKeyless == {"plus_keyless_before", "plus_keyless_after"}
 MCKeyShapes == {"ok", "none", "one_missing", "extra", "empty_value", "wrong_name", "weird_value"}
 MCValKinds == {"nil", "unset", "string", "string_empty", "string_num", "ascii", "int_neg", "int_min", "uint", "uint_max", "bool", "bytes", "decimal", "decimal_prec",
                "double", "double_nan", "float", "empty", "ll_empty", "ll_strings", "ll_nested", "ll_nilelem", "ll_mixed", "json_num", "json_str", "json_obj_empty",
